@@ -477,6 +477,9 @@ func genC05(r *rngT, n int, tier string) {
 		}
 		execOp(fmt.Sprintf("read %s - 0 %s 1", dn, s))
 		execOp(fmt.Sprintf("read %s - 0 %s one", dn, s))
+		// the same stream through a buffered reader supplied by the caller (Reader.BufByteReader), smaller or larger than a frame
+		execOp(fmt.Sprintf("read %s - 0 %s %s B%d", dn, s, randPlan(r), []int{16, 17, 32, 64, 128, 255, 300, 4096}[r.Intn(8)]))
+		stat("c05-caller-buffer")
 	}
 	// a stream of valid frames separated by non-marker junk: every frame must come out (resync clause)
 	for i := 0; i < n/4+1; i++ {
@@ -486,6 +489,7 @@ func genC05(r *rngT, n int, tier string) {
 			items = append(items, bytesItems(refFrameBytes(randRawFrame(r, 1+r.Intn(2), r.bool())))...)
 		}
 		execOp(fmt.Sprintf("read - - 0 %s %s", encStream(items), randPlan(r)))
+		execOp(fmt.Sprintf("read - - 0 %s %s B%d", encStream(items), randPlan(r), []int{16, 24, 64, 200}[r.Intn(4)]))
 		stat("c05-resync")
 	}
 }
